@@ -116,23 +116,36 @@ PLANS['C14'] = Plan(
 )
 
 SGP = 'src/alignment/segments.py::'
+RSV = 'src/alignment/segment_with_resolved_conflicts.py::AlignmentSegmentConflictResolver.'
+CONFLICT_CHAIN = [SGP + 'AlignmentSegment.__sub__#segment', SGP + 'AlignmentSegment.__sub__#positions',
+                  SGP + '_SegmentPairWithConflict.__removeWholeConflictingSubsegmentWithWorseScore',
+                  SGP + '_SegmentPairWithConflict.__trimSegmentsAtOptimalPosition', SGP + '_SegmentPairWithConflict.resolveConflict',
+                  SGP + '_SegmentPairWithNoConflict.resolveConflict', SGP + 'AlignmentSegment.slice#partial', SGP + '_SegmentPairWithConflict.create',
+                  SGP + 'AlignmentSegment.checkForConflicts', SGP + 'EmptyAlignmentSegment.checkForConflicts',
+                  RSV + '__pairAndResolveConflicts', RSV + 'resolveConflicts']
 PLANS['C15'] = Plan(
-    'C15', [SGP + '_SegmentPairWithConflict.__trimSegmentsAtOptimalPosition', SGP + '_SegmentPairWithConflict.resolveConflict',
-            SGP + 'AlignmentSegment.getReferenceLabels', SGP + 'AlignmentSegment.getQueryLabels', SGP + 'AlignmentSegment.slice',
-            SEG + 'AlignmentSegment.create'], 'other',
-    "Deductive links (proved for all inputs): the equal-index cut __trimSegmentsAtOptimalPosition cuts both conflicting sub-segments at the same label count m, each "
-    "cut position lying directly before that segment's OWN m-th label (left keeps its first m labels, right drops its first m; at the edges one whole conflict "
-    "zone is removed and the other segment kept unchanged); getReferenceLabels / getQueryLabels return well-formed label tables (one strictly increasing index per "
-    "label inside the sub-segment), which discharges the precondition of the cut in resolveConflict; AlignmentSegment.slice returns a contiguous run (identity) of the "
-    "segment's positions rebuilt through create, and its trailing-unpaired trimming never indexes an empty list for the two operand shapes used; every trimmed segment is rebuilt by AlignmentSegment.create "
-    "(score = sum of what is left). The subtraction itself (__sub__) and the numpy merge index are assumed contracts here. BOUNDED (run-time contract monitor on the real AlignmentSegmentConflictResolver.resolveConflicts and on every "
-    "checkForConflicts(...).resolveConflict() it performs): every resulting segment is a contiguous sub-run (element identity) of one input segment "
-    "with score = sum of what is left; pairs outside the overlap are kept; no two resulting segments share a label or cross. Inputs are produced by the real "
-    "engine, scorer and segment factory from generated label data with 2-6 nearby seed peaks, both strands, four maxDistance values. The last clause is "
-    "genuinely violated by the pinned code in two ways that are recorded as known findings, each pinned to its mechanism (K1 pair never compared, K2 equal-index "
-    "cut on unequal label lists) and replayed from a minimal witness on every run; any other failure of that clause is a violation.",
+    'C15', CONFLICT_CHAIN + [SGP + 'AlignmentSegment.getReferenceLabels', SGP + 'AlignmentSegment.getQueryLabels', SGP + 'AlignmentSegment.slice',
+                             SEG + 'AlignmentSegment.create', SGP + 'AlignmentSegment.__init__', SGP + 'EmptyAlignmentSegment.__init__',
+                             'src/alignment/segment_chainer.py::SegmentChainer.chain'], 'other',
+    "PROVED for all inputs (whenever resolution returns; partial correctness with respect to IndexError): the first sentence of the statement in its "
+    "'never adds, moves or re-scores' reading - every segment returned by AlignmentSegmentConflictResolver.resolveConflicts is one of the input segments "
+    "(SegmentChainer.chain: every chained segment is an input segment) or was rebuilt through AlignmentSegment.create (score = sum of what is left, same peak; the "
+    "empty segment if nothing is left) from a SUB-SEQUENCE of one input segment's positions (same objects, same order). The chain of contracts: __sub__ (both "
+    "argument shapes; keeps exactly the positions not `in` the subtrahend), __removeWhole..., the equal-index cut __trimSegmentsAtOptimalPosition (both "
+    "segments cut at the same label count m, each cut directly before that segment's OWN m-th label; at the edges one whole conflict zone is removed), "
+    "getReferenceLabels / getQueryLabels (well-formed label tables: precondition of the cut, discharged in resolveConflict), slice (conflict zone = contiguous "
+    "run of the segment), _SegmentPairWithConflict.create, checkForConflicts and resolveConflict of both segment / pair classes, and the loop over consecutive "
+    "chain members (invariant: the segment at place i is derived from the chained segment at place i; witness = composition of the index maps). The numpy merge "
+    "index is an assumed contract (an index in range). Exception freedom of slice is a separate contract (operand shapes of conflict resolution). BOUNDED "
+    "(run-time contract monitor on the real resolver and on every checkForConflicts(...).resolveConflict() it performs): CONTIGUITY of what is left, pairs "
+    "outside the overlap are kept, no two resulting segments share a label or cross. Inputs are produced by the real engine, scorer and segment factory from "
+    "generated label data with 2-6 nearby seed peaks, both strands, four maxDistance values. The last clause is genuinely violated by the pinned code in two "
+    "ways that are recorded as known findings, each pinned to its mechanism (K1 pair never compared, K2 equal-index cut on unequal label lists) and "
+    "replayed from a minimal witness on every run; any other failure of that clause is a violation.",
     bounded=_lazy('bcheck.c15', 'bounded'), replay=_lazy('bcheck.c15', 'replay'),
-    technique='deductive contracts (own VC generator + z3) for the equal-index cut and the label tables; bounded run-time contract monitor on the real resolver',
+    technique='deductive contracts (own VC generator + z3) on the whole conflict-resolution call chain (sub-sequence + recomputed score proved for all inputs); bounded run-time contract monitor on the real resolver for contiguity and disjointness',
+    assumptions=['numpy cumsum/add/argmax in __getOptimalMergeIndex: assumed to return an index between 0 and the number of labels',
+                 'partial correctness: IndexError permitted in slice / startPosition / endPosition (exception freedom: slice default contract + C07 bounded)'],
 )
 
 WCF = 'src/workflow_coordinator.py::_WorkflowCoordinator.'
@@ -154,12 +167,17 @@ PLANS['C01'] = Plan(
             SF + '_AlignmentSegmentBuilder.getSegments', 'src/alignment/segment_chainer.py::SegmentChainer.chain',
             'src/alignment/segments.py::_SegmentPairWithConflict.__trimSegmentsAtOptimalPosition',
             'src/alignment/segments.py::_SegmentPairWithConflict.resolveConflict', 'src/alignment/segments.py::AlignmentSegment.getReferenceLabels',
-            'src/alignment/segments.py::AlignmentSegment.getQueryLabels', AE + 'align', AE + '__getNotAlignedPositions'], 'other',
+            'src/alignment/segments.py::AlignmentSegment.getQueryLabels', AE + 'align', AE + '__getNotAlignedPositions',
+            'src/alignment/aligner.py::Aligner.getSegments', 'src/alignment/aligner.py::Aligner.align#peaks', 'src/alignment/aligner.py::Aligner.align#peak',
+            'src/alignment/alignment_results.py::AlignmentResultRow.resolve'] + CONFLICT_CHAIN, 'other',
     "Deductive links (proved for all inputs): label numbers handed to the pairing step are shift+1..shift+n of the named map (getPositionsWithSiteIds), "
     "candidates pair window labels with query labels (__getAlignedPairs), after the two de-duplication passes a peak's pairs are one-to-one on both label "
     "numbers with strictly increasing reference labels (deduplicate), segments are contiguous runs of that list (segment builder), the chain is a "
     "sub-list with each segment once (chain); the conflict cut is made on the label table chosen by the seed-peak order and at each segment's own m-th label "
-    "(resolveConflict, label tables, equal-index cut). BOUNDED: the composed statement (strict query monotonicity per strand, disjointness across the segments "
+    "(resolveConflict, label tables, equal-index cut); conflict resolution never adds or moves positions (every resulting segment is an input segment or a "
+    "sub-sequence of one, see C15), so every pair of every candidate row (Aligner.align, both argument shapes) and of every joined record "
+    "(AlignmentResultRow.resolve: at most two segments, each derived from the FIRST segment of a part) is a pair produced by the pairing step for one of the "
+    "seed peaks. BOUNDED: the composed statement (strict query monotonicity per strand, disjointness across the segments "
     "of a record, joined records, at least one pair, every file of every mode, every candidate row) is a run-time contract on the records written by the real "
     "program and on the candidates it builds, on generated CMAP sets. Cross-segment disjointness is genuinely violated by the pinned code through the two "
     "known conflict-resolution findings (C15 K1/K2); a failing record is attributed to them only if the conflict monitor saw that mechanism for that query.",
@@ -183,12 +201,16 @@ PLANS['C04'] = Plan(
             'src/alignment/alignment_position.py::NotAlignedPosition.getScoredPosition',
             'src/alignment/alignment_position_scorer.py::AlignmentPositionScorer.getScoredPositions', AR + 'create',
             'src/workflow_coordinator_factory.py::WorkflowCoordinatorFactory.create', 'src/alignment/aligner.py::Aligner.getSegments',
-            'src/alignment/segments.py::_SegmentPairWithConflict.__trimSegmentsAtOptimalPosition'], 'other',
+            'src/alignment/segments.py::_SegmentPairWithConflict.__trimSegmentsAtOptimalPosition',
+            'src/alignment/aligner.py::Aligner.align#peaks', 'src/alignment/aligner.py::Aligner.align#peak', RSV + 'resolveConflicts',
+            SGP + 'AlignmentSegment.__sub__#segment', SGP + 'AlignmentSegment.__sub__#positions'], 'other',
     "Deductive links: a candidate's offset is query position - (reference position - seed) and within maxDistance (__getAlignedPairs), a pair scores sp - dp*|offset| and an unpaired label su (getScoredPosition x2, getScoredPositions element-wise), a segment's score is "
     "the sum of its members' scores (AlignmentSegment.create; every trim goes through it), builder segments are contiguous runs of the scored list, a row's "
     "confidence is the sum of its segment scores (AlignmentResultRow.create), the per-peak composition Aligner.getSegments uses the window [peak, peak + query "
     "length] and discharges every callee precondition, and every command-line value reaches the component that uses it "
-    "(WorkflowCoordinatorFactory.create, symbolic execution of all constructors). BOUNDED: "
+    "(WorkflowCoordinatorFactory.create, symbolic execution of all constructors); the candidate row of Aligner.align (after conflict resolution) has "
+    "Confidence = sum of its segment scores, each non-empty segment carries one of the given seed peaks and scores exactly the sum of the scores of the positions it "
+    "still has (trimming goes through __sub__ -> create). BOUNDED: "
     "Confidence of every returned row and every candidate is recomputed from the raw maps, each segment's peak position and the parameters passed on the "
     "command line (-sp/-dp/-su/-d swept), labels strictly inside a segment's span are all accounted for, none twice; the Confidence column equals it to 2 decimals.",
     bounded=_lazy('bcheck.c04', 'bounded'), replay=_lazy('bcheck.c04', 'replay'),
@@ -249,7 +271,9 @@ PLANS['C20'] = Plan(
 PLANS['C08'] = Plan(
     'C08', ['src/multi_pass_workflow_coordinator.py::_MultiPassWorkflowCoordinator.execute', AR + 'check_overlap',
             'src/alignment/alignment_results.py::AlignmentResults.filterOutSubsequentAlignmentsForSingleQuery',
-            'src/alignment/alignment_results.py::AlignmentResults.resolve'], 'other',
+            'src/alignment/alignment_results.py::AlignmentResults.resolve', 'src/alignment/alignment_results.py::AlignmentResultRow.resolve',
+            SGP + 'AlignmentSegment.checkForConflicts', SGP + '_SegmentPairWithConflict.resolveConflict', SGP + '_SegmentPairWithNoConflict.resolveConflict',
+            SGP + 'AlignmentSegment.__sub__#segment', SGP + 'AlignmentSegment.__sub__#positions'], 'other',
     "Deductive links: _MultiPassWorkflowCoordinator.execute is verified once with a symbolic output mode and a ghost log of the additional-file writes: "
     "separate returns filter(first pass) and writes filter(second pass) to _1; all returns the joined rows and writes filter(first) to _1, filter(second) to _2; "
     "joined returns the joined rows and writes the un-joined rows to _1 - the same callee results in every mode, so the file equalities between modes follow by "
@@ -257,7 +281,8 @@ PLANS['C08'] = Plan(
     "reference with a reference gap <= maxDifference; AlignmentResults.resolve (two nested groupby loops, ghost maps row -> place) creates a joined row only "
     "for two input rows of the same query, reference and strand whose gap is at most the maxDifference it was given, every un-joined row is an input row, and "
     "every input row is un-joined or one of the two parts of a joined row (its precondition, at most two rows per reference and query, is discharged at the "
-    "call site from the de-duplication contract). The row-level join (AlignmentResultRow.resolve) is an assumed contract (ids and strand passed through). BOUNDED: the four multi-pass modes of the real program on identical generated inputs (indel-containing and chimeric queries over-weighted, three "
+    "call site from the de-duplication contract). The row-level join AlignmentResultRow.resolve is verified (partial correctness): the joined record carries the first part's ids, lengths and strand, has "
+    "at most two segments, each the FIRST segment of one part or rebuilt from a sub-sequence of its positions - hence its pairs are a subset of the union of the two parts' pairs - and its Confidence is the sum of its segment scores (that only the first segment of each part takes part is known finding K3, now also visible as a proved postcondition). BOUNDED: the four multi-pass modes of the real program on identical generated inputs (indel-containing and chimeric queries over-weighted, three "
     "maxDifference values); all clauses of the statement are evaluated on the XMAP text with an independent parser.",
     bounded=_lazy('bcheck.c08', 'bounded'), replay=_lazy('bcheck.c08', 'replay'),
     technique='bounded differential run-time contract across output modes (deductive part: see functions_under_contract)',
